@@ -257,6 +257,10 @@ pub fn run_check(prop: &str, tier: &str) -> i32 {
         "C09" => {
             report.level = "fault_enumeration";
             c09::check(tier, budget, &mut report);
+            // a shard backlog longer than one journal-sized batch behind a failing batch
+            if report.violations.is_empty() {
+                c19::failed_backlog_for_c09(&mut report);
+            }
         }
         "C19" => {
             c19::check(tier, budget * 0.5, &mut report);
